@@ -1,5 +1,5 @@
 """C12 - BIP85 child secrets equal the specified derivation for every application and index."""
-from ..core import attempt, V, R
+from ..core import attempt, V, R, isolated
 from ..ref import hd
 from .. import hdscen
 
@@ -58,8 +58,47 @@ def one(master, app, param, index):
     return "value-ok-" + app, got, []
 
 
+HIST_REQ = [("hex", 32, 0), ("wif", None, 0), ("mnemonic", 12, 0), ("pwd", 21, 1), ("xprv", None, 0)]
+
+
+def hist_masters():
+    k1, k2 = 0x1111111111111111111111111111111111111111111111111111111111111111, 0x2222222222222222222222222222222222222222222222222222222222222222
+    c1, c2 = "aa" * 32, "bb" * 32
+    return [{"xkey": hdscen.root_xkey({"k": k1, "chain": c1})}, {"xkey": hdscen.root_xkey({"k": k1, "chain": c2})},
+            {"xkey": hdscen.root_xkey({"k": k2, "chain": c1})},
+            {"xkey": hdscen.root_xkey({"k": k1, "chain": c1, "testnet": True}), "testnet": True},
+            {"xkey": hdscen.root_xkey({"k": k1, "chain": c1, "depth": 2, "index": 7, "pfp": "0a0b0c0d"})}]
+
+
+class CrossMasterHistories:
+    """sequences of BIP85 requests against several masters that share key or chain code, in ONE process; each answer
+    must equal the reference for its own master. canon = the history itself (module-level caches are unobservable)."""
+
+    def ops(self, hist):
+        return [[m, r] for m in range(len(hist_masters())) for r in range(len(HIST_REQ))]
+
+    def run(self, hist):
+        ms = hist_masters()
+        out = None
+        for m, r in hist:
+            app, param, idx = HIST_REQ[r]
+            out = one(ms[m], app, param, idx)
+        if not hist:
+            return {"canon": hist, "viols": [], "label": "init"}
+        label, _, viols = out
+        for v in viols:
+            v["key"] = v["key"].replace(":in-range:", ":history:")
+            v["msg"] = "after requests %r in the same process: %s" % (hist[:-1], v["msg"])
+        return {"canon": hist, "viols": viols, "label": label}
+
+
 def execute(case):
-    k = case["k"]
+    k = case.get("k")
+    if "hist" in case:
+        r = isolated(CrossMasterHistories().run, case["hist"])
+        for v in r["viols"]:
+            v["case"] = case
+        return R(r["label"], viols=r["viols"])
     outcomes, viols, n = {}, [], 0
     values = []
 
@@ -130,4 +169,6 @@ def run(ctx):
             for i in (-1, -2, -H, -H - 1, H, H + 1, 2**32 - 1, 2**32, 2**32 + H):
                 bad.append({"k": "one", "master": m, "app": app, "param": p, "index": i})
     ctx.product("out-of-range", bad, execute)
+    from ..bfs import bfs
+    bfs(ctx, "cross-master-request-histories", CrossMasterHistories(), 3 if ctx.thorough else 2)
     return {"masters": len(ms), "indexes": idxs}
